@@ -21,7 +21,7 @@ TECHNIQUE = ("stateless exploration of full product grids on a real instance: si
 TA, TB = "_a._tcp.local.", "_b._tcp.local."
 S1 = Svc(TA, "s1._a._tcp.local.", "h1.local.", 80, b"\x03a=b", [bytes([10, 0, 0, 1])], [])
 S2 = Svc(TA, "s2._a._tcp.local.", "h1.local.", 81, b"", [bytes([10, 0, 0, 1])], [])
-S3 = Svc(TB, "s3._b._tcp.local.", "h3.local.", 82, b"", [bytes([10, 0, 0, 3])], [])
+S3 = Svc(TB, "s3._b._tcp.local.", "h3.local.", 82, b"", [bytes([10, 0, 0, 3])], [bytes.fromhex("fe800000000000000000000000000003")])
 REG = {"S1": S1, "S2": S2, "S3": S3}
 
 KINDS: Dict[str, Tuple[List[Tuple[str, int]], bool]] = {
@@ -29,6 +29,8 @@ KINDS: Dict[str, Tuple[List[Tuple[str, int]], bool]] = {
     "aaaa": ([(S1.server, 28)], False), "ptr+txt": ([(TA, 12), (S1.name, 16)], False), "ptrB": ([(TB, 12)], False),
     "txt": ([(S1.name, 16)], False), "srv+a": ([(S1.name, 33), (S1.server, 1)], False), "probe": ([(TA, 12)], True),
     "any": ([(S1.name, 255)], False),
+    # the IPv6 address of a host that has one (heard on an IPv6 socket it is cached with the interface's scope id)
+    "aaaaB": ([(S3.server, 28)], False), "aaaaB+ptrB": ([(S3.server, 28), (TB, 12)], False),
     # several questions of which this host can answer only one (an immediate type): still not a single-question query
     "srv+ghost": ([(S1.name, 33), ("ghost._a._tcp.local.", 33)], False),
     "ghost+a": ([("ghost.local.", 1), (S1.server, 1)], False),
@@ -74,6 +76,9 @@ def drive(w: World, host: Any, script: List[Tuple[float, bytes, str]], horizon_m
 
 def setup(w: World, reference_sighting: bool = True) -> Tuple[Any, float]:
     host = w.new_zeroconf(mode="single6" if V6["on"] else "single")
+    # what the host *processed* is logged from the very first datagram on (the comparison with what reached its socket is
+    # only meaningful if both logs cover the same time)
+    host.seen_proc = Seen(host.zc)
     for s in REG.values():
         register(w, host, make_info(s, None))
     w.advance(1500 if reference_sighting else 1)
@@ -198,7 +203,7 @@ def judge(problems: List[str], host_name: str, w: World, queries: List[Query], t
 def points(tier: str) -> List[Dict[str, Any]]:
     pts: List[Dict[str, Any]] = []
     # F1: one query, every jitter value, sighting ages around one second
-    kinds1 = list(KINDS) if tier != "quick" else ["ptr", "srv", "ptr+txt", "a", "probe", "any", "srv+ghost", "ghost+a", "aaaa+ptrZ"]
+    kinds1 = list(KINDS) if tier != "quick" else ["ptr", "srv", "ptr+txt", "a", "probe", "any", "srv+ghost", "ghost+a", "aaaa+ptrZ", "aaaaB", "aaaaB+ptrB"]
     for kind in kinds1:
         for age in (999, 1000, 1001, 5000):
             for j in (range(20, 121) if (tier != "quick" or age in (999, 5000)) else (20, 70, 120)):
@@ -279,7 +284,7 @@ def _run_point(p: Dict[str, Any], verbose: bool = False) -> Tuple[Optional[Dict[
     with World(rand=rand) as w:
         announce = fam == "after-announce"
         host, s0 = setup(w, reference_sighting=not announce)
-        seen_proc = Seen(host.zc)
+        seen_proc = host.seen_proc
         if announce:
             # the sighting is the host's own third announcement of S3 (registered last), looped back
             s0 = max(s.t_us for s in w.net.trace if s.host == host.name and s.multicast) / 1000 + 0.1
